@@ -240,6 +240,9 @@ func shallowSame(a, b Value) bool {
 }
 
 func (ip *Interp) checkWrite(o *Obj, what string) {
+	if ip.W != nil && ip.W.sched != nil {
+		ip.W.sched.accessObj(ip, o, true)
+	}
 	if ip.Frozen > 0 && o != nil && o.Epoch < ip.Frozen && !ip.inInit {
 		site := ""
 		if ip.curFn != nil {
